@@ -30,7 +30,7 @@ func hasName(model []inst, n string) bool {
 func clientAddr(k int) string { return fmt.Sprintf("10.%d.%d.%d:4%03d", k%5, (k/5)%250, (k*7)%250, k%1000) }
 
 func TestC11Sequential(t *testing.T) {
-	sub := lab.Sub("reconfig-sequential", "rapid histories over the admin API handlers {add(name from a 4-name alphabet, address valid/unparsable/empty, weight -2..6), remove(name incl. absent), set_strategy(5 known + unknown/empty/wrong-case), "+
+	sub := lab.Sub("reconfig-sequential", "rapid histories over the admin API handlers {add(name from a 4-name alphabet, address valid/unparsable/empty, weight -2..6 or, one in eight, 100/256/257/999/5000), remove(name incl. absent), set_strategy(5 known + unknown/empty/wrong-case), "+
 		"eject, list, request, hold (request parked in a backend), release, eligibility burst} against a reference model (multiset of name/address/effective weight/health + strategy name); "+
 		"duplicate add may answer 201 (listed twice) or 4xx (unchanged); after remove no entry of that name may be listed or served; failed operations change nothing; strategy switch keeps the listing identical; parked requests finish normally; "+
 		"non-trivial = history with a repeated name, or a remove followed by traffic, or a strategy switch with an ejected backend")
@@ -107,6 +107,9 @@ func TestC11Sequential(t *testing.T) {
 						name = ""
 					}
 					w := rapid.IntRange(-2, 6).Draw(rt, "weight")
+					if rapid.IntRange(0, 7).Draw(rt, "bigweight") == 0 {
+						w = rapid.SampledFrom([]int{100, 256, 257, 999, 5000}).Draw(rt, "weight_big") // no upper limit is documented
+					}
 					addr := fmt.Sprintf("http://h%d.test", seq)
 					switch rapid.IntRange(0, 9).Draw(rt, "addrkind") {
 					case 0:
